@@ -1,0 +1,110 @@
+//go:build verif
+
+// Verification hook (add-only, compiled only with -tags verif): read-only views of the
+// package-level OpenAPI state for the C16/C01 state-machine correspondence of /verif.
+// Nothing here mutates the globals.
+
+package openapi
+
+import (
+	"crypto/sha256"
+	"encoding/hex"
+	"sort"
+
+	"sigs.k8s.io/kustomize/kyaml/yaml"
+)
+
+// VerifStateC16 is a projection of the schema globals.
+type VerifStateC16 struct {
+	Version        string   // kubernetesOpenAPIVersion
+	HasCustom      bool     // customSchema != nil
+	CustomHash     string   // sha256 prefix of customSchema ("" when nil)
+	SchemaInit     bool     // globalSchema.schemaInit
+	DefaultStatus  int      // globalSchema.defaultBuiltInSchemaParseStatus (0 not parsed, 1 delayed, 2 parsed)
+	NoBuiltin      bool     // globalSchema.noUseBuiltInSchema
+	NumDefs        int      // len(globalSchema.schema.Definitions), -1 when the map is nil
+	NumByType      int      // len(globalSchema.schemaByResourceType), -1 when nil
+	NumNs          int      // len(globalSchema.namespaceabilityByResourceType), -1 when nil
+	Defs           []string // per queried definition name: its Description, or "\x00" when absent
+	ByType         []string // per queried type meta: Description of the indexed schema, or "\x00" when absent
+	Ns             []int    // per queried type meta: -1 absent, 0 cluster-scoped, 1 namespaced
+	NsNotPrecomp   []string // keys of the namespaceability map that are missing from precomputedIsNamespaceScoped
+	DefaultVersion string   // kubernetesOpenAPIDefaultVersion
+}
+
+// VerifSnapshotC16 reads the globals under the read lock. It never triggers initSchema.
+func VerifSnapshotC16(names []string, tms []yaml.TypeMeta) VerifStateC16 {
+	schemaLock.RLock()
+	defer schemaLock.RUnlock()
+	s := VerifStateC16{
+		Version:        kubernetesOpenAPIVersion,
+		HasCustom:      customSchema != nil,
+		SchemaInit:     globalSchema.schemaInit,
+		DefaultStatus:  int(globalSchema.defaultBuiltInSchemaParseStatus),
+		NoBuiltin:      globalSchema.noUseBuiltInSchema,
+		NumDefs:        -1,
+		NumByType:      -1,
+		NumNs:          -1,
+		DefaultVersion: kubernetesOpenAPIDefaultVersion,
+	}
+	if customSchema != nil {
+		h := sha256.Sum256(customSchema)
+		s.CustomHash = hex.EncodeToString(h[:8])
+	}
+	if globalSchema.schema.Definitions != nil {
+		s.NumDefs = len(globalSchema.schema.Definitions)
+	}
+	if globalSchema.schemaByResourceType != nil {
+		s.NumByType = len(globalSchema.schemaByResourceType)
+	}
+	if globalSchema.namespaceabilityByResourceType != nil {
+		s.NumNs = len(globalSchema.namespaceabilityByResourceType)
+	}
+	for _, n := range names {
+		d, ok := globalSchema.schema.Definitions[n]
+		if !ok {
+			s.Defs = append(s.Defs, "\x00")
+		} else {
+			s.Defs = append(s.Defs, d.Description)
+		}
+	}
+	for _, t := range tms {
+		d, ok := globalSchema.schemaByResourceType[t]
+		if !ok || d == nil {
+			s.ByType = append(s.ByType, "\x00")
+		} else {
+			s.ByType = append(s.ByType, d.Description)
+		}
+		b, ok := globalSchema.namespaceabilityByResourceType[t]
+		switch {
+		case !ok:
+			s.Ns = append(s.Ns, -1)
+		case b:
+			s.Ns = append(s.Ns, 1)
+		default:
+			s.Ns = append(s.Ns, 0)
+		}
+	}
+	for t := range globalSchema.namespaceabilityByResourceType {
+		if _, ok := precomputedIsNamespaceScoped[t]; !ok {
+			s.NsNotPrecomp = append(s.NsNotPrecomp, t.APIVersion+"|"+t.Kind)
+		}
+	}
+	sort.Strings(s.NsNotPrecomp)
+	return s
+}
+
+// VerifPrecomputedC16 returns a copy of precomputedIsNamespaceScoped as sorted "apiVersion|kind=bool" lines
+// (runtime cross-check of the translated table).
+func VerifPrecomputedC16() []string {
+	out := make([]string, 0, len(precomputedIsNamespaceScoped))
+	for t, b := range precomputedIsNamespaceScoped {
+		v := "false"
+		if b {
+			v = "true"
+		}
+		out = append(out, t.APIVersion+"|"+t.Kind+"="+v)
+	}
+	sort.Strings(out)
+	return out
+}
